@@ -11,6 +11,7 @@ from . import fst
 from .asttypes import (
     ASTS_LEAF_MOD,
     ASTS_LEAF_BLOCK,
+    ASTS_LEAF_MAYBE_DOCSTR,
     ASTS_LEAF_TRY,
     AsyncFor,
     AsyncFunctionDef,
@@ -1072,7 +1073,11 @@ def _get_slice_stmtlike_old(
 
     fst_, _ = self._make_fst_and_dedent(indent, get_ast, copy_loc, prefix, suffix, put_loc, put_lines,
                                         docstr=fst.FST.get_option('docstr', options),
-                                        docstr_strict_exclude=asts[0] if asts and start else None)  # if slice gotten doesn't start at 0 then first element cannot be a 'strict' docstr even though it is first in the new slice
+                                        docstr_strict_exclude=(
+                                            asts[0]
+                                            if asts and (start or field != 'body'
+                                                         or ast.__class__ not in ASTS_LEAF_MAYBE_DOCSTR) else
+                                            None))  # if slice gotten doesn't start at 0 or is not from a block which can have a docstr then first element cannot be a 'strict' docstr even though it is first in the new slice
 
     if cut and is_last_child:  # correct for removed last child nodes or last nodes past the block open colon
         _set_end_pos_after_del(self, block_loc.ln, block_loc.col, put_loc.ln, put_loc.col)
@@ -1323,7 +1328,11 @@ def _put_slice_stmtlike_old(
     else:
         put_loc = _src_edit.put_slice_stmt(self, put_fst, put_body, field, block_loc, header_indent, block_indent,
                                            ffirst, flast, fpre, fpost,
-                                           docstr_strict_exclude = put_body[0] if put_body and start else None,
+                                           docstr_strict_exclude = (
+                                               put_body[0]
+                                               if put_body and (start or field != 'body'
+                                                                or ast_cls not in ASTS_LEAF_MAYBE_DOCSTR) else
+                                               None),  # same as for get, first element put is only a 'strict' docstr if put to start of block which can have one
                                            **options)
 
         put_fst._offset(0, 0, put_loc.ln, 0 if put_fst.bln or put_fst.bcol else lines[put_loc.ln].c2b(put_loc.col))
